@@ -18,6 +18,8 @@ HLoc = sf.HLoc
 
 def _proj(x, depth=0):
     '''a JSON-able observable of whatever a call hands back (class names of containers included: grow-only-ness is observable)'''
+    if isinstance(x, sf.Quilt):
+        return {'quilt': _proj(x.to_frame(), depth + 1), 'axis': x._axis, 'retain': x._retain_labels}
     if isinstance(x, sf.Bus):
         return {'bus': [_proj(l, depth + 1) for l in x.index], 'frames': [_proj(f, depth + 1) for f in x.values], 'name': str(x.name)}
     if isinstance(x, sf.Frame):
@@ -366,6 +368,67 @@ def bus_pair_factory(workdir):
     return bus_pair
 
 
+# ---- a Quilt over a lazily loaded Bus against a Quilt over the same Frames in memory --------------------------------------------------
+QUILT_SKIP = {'status', 'bus', 'mloc', 'nbytes', 'STATIC', 'from_frames', 'from_items', 'from_zip_pickle', 'from_zip_csv', 'from_zip_tsv', 'from_zip_parquet', 'from_zip_npz',
+              'from_sqlite', 'from_hdf5', 'from_xlsx', 'to_zip_pickle', 'to_zip_csv', 'to_zip_tsv', 'to_zip_parquet', 'to_zip_npz', 'to_sqlite', 'to_hdf5', 'to_xlsx', 'unpersist',
+              'display', 'display_tall', 'display_wide'}
+
+
+def _quilt_methods(rows, cols):
+    last = rows[-1]
+    return {
+        'values': lambda q: q.values, 'shape': lambda q: q.shape, 'index': lambda q: q.index, 'columns': lambda q: q.columns, 'to_frame': lambda q: q.to_frame(),
+        'iloc_last_row': lambda q: q.iloc[-1], 'iloc_rows_rev': lambda q: q.iloc[::-1], 'iloc_cell': lambda q: q.iloc[len(rows) - 1, 0], 'loc_last': lambda q: q.loc[last],
+        'loc_rows': lambda q: q.loc[[rows[0], last]], 'getitem_col': lambda q: q[cols[0]], 'iter_array1': lambda q: list(q.iter_array(axis=1)), 'iter_series0': lambda q: list(q.iter_series(axis=0)),
+        'iter_tuple1': lambda q: [tuple(t) for t in q.iter_tuple(axis=1, constructor=tuple)], 'head': lambda q: q.head(2), 'tail': lambda q: q.tail(2), 'size': lambda q: q.size,
+        'iter_window': lambda q: list(q.iter_window(size=2)), 'iter_window_array_items': lambda q: list(q.iter_window_array_items(size=2, step=2)), 'items': lambda q: list(q.items()),
+        'keys': lambda q: list(q.keys()), 'contains': lambda q: [c in q for c in cols + ['zz']], 'get': lambda q: q.get(cols[-1]), 'sum_via_frame': lambda q: q.to_frame().sum(),
+        'iter_series_apply': lambda q: q.iter_series(axis=1).apply(lambda s: s.sum()), 'len': len, 'iloc_block': lambda q: q.iloc[1:, :1], 'equals_frame': lambda q: q.to_frame().equals(q.iloc[:, :]),
+    }
+
+
+def quilt_pair_factory(workdir):
+    counter = [0]
+
+    def quilt_pair(rng):
+        import os
+        n = rng.randint(2, 4)
+        labels = ['f%d' % i for i in rng.sample(range(9), n)]
+        cols = ['c0', 'c1', 'c2'][:rng.randint(1, 3)]
+        frames, rows = [], []
+        for k, l in enumerate(labels):
+            nr = rng.randint(1, 3)
+            ix = tuple('r%d_%d' % (k, i) for i in range(nr))
+            rows += list(ix)
+            frames.append(sf.Frame(np.array([[rng.randint(0, 9) for _ in cols] for _ in range(nr)], dtype=np.int64), index=ix, columns=tuple(cols), name=l))
+        counter[0] += 1
+        fp = os.path.join(workdir, 'qtwin%d.zip' % counter[0])
+        sf.Bus.from_frames(frames).to_zip_pickle(fp)
+        mp = rng.choice([None, 1, 1, 2, n])
+        lazy = sf.Quilt.from_zip_pickle(fp, max_persist=mp, axis=0, retain_labels=False)
+        hist = ['max_persist=%s' % mp]
+        for _ in range(rng.randint(0, 4)):
+            q = rng.random()
+            if q < 0.5:
+                lazy.iloc[rng.randrange(len(rows))]
+                hist.append('row')
+            elif q < 0.8:
+                lazy.loc[sorted(rng.sample(rows, rng.randint(1, len(rows))), key=rows.index)]          # (in axis order: a key that revisits a member is the known finding C19-quilt-key-order)
+                hist.append('rows')
+            else:
+                lazy.shape
+                hist.append('shape')
+        memory = sf.Quilt(sf.Bus.from_frames(frames), axis=0, retain_labels=False)
+
+        def cleanup():
+            try:
+                os.remove(fp)
+            except OSError:
+                pass
+        return lazy, memory, _quilt_methods(rows, cols), {'kind': 'Quilt:zip_pickle', 'labels': [P.enc(l) for l in labels], 'history': hist, '_cleanup': cleanup}
+    return quilt_pair
+
+
 def events(rng, n, kinds):
     '''n twin events over the given pair builders; each: one method, called on the grown container first'''
     out = []
@@ -380,6 +443,8 @@ def events(rng, n, kinds):
             methods = _auto_methods(fresh)
             if isinstance(fresh, sf.Bus):
                 methods = {k: v for k, v in methods.items() if k.split(':')[1] not in BUS_SKIP}
+            if isinstance(fresh, sf.Quilt):
+                methods = {k: v for k, v in methods.items() if k.split(':')[1] not in QUILT_SKIP}
         name = rng.choice(sorted(methods))
         fn = methods[name]
         a = _call(fn, stale)
